@@ -9,7 +9,7 @@ CLAIM = dict(
               'known signatures followed by symbolic bytes',
     text='Bounded symbolic checking: (1) every conformant SUL number field is accepted by the type detector patterns; (2) RP66V1 files (5 record interleavings, every sequence-number '
          'spelling of 3 symbolic characters, symbolic maximum length digits, a symbolic payload byte), LIS files (direct/indirect X, TIF on/off, with/without table, split physical '
-         'records, with reel/tape headers), LAS 1.2/2.0 texts (every comment / blank / indentation / wrap layout), BIT files (1..3 channels, 1..3 frames, symbolic data byte) and DAT '
+         'records, with reel/tape headers, with a record of each of the 20 other LIS-79 record types), LAS 1.2/2.0 texts (every comment / blank / indentation / wrap layout), BIT files (1..3 channels, 1..3 frames, symbolic data byte) and DAT '
          'texts are identified as their own type, the file is left at position 0 and unchanged; (3) for every byte string of <= 12 bytes and for 14 signature prefixes followed by 4 '
          'symbolic bytes and 0..40 filler bytes, identification returns a documented code or the empty string and raises nothing.',
     note='Trusted: CrossHair + ch_bits, z3, the reference encoders in spec/ and the builders of the C04/C06/C09/C13/C14 harnesses, SymFile. Recognition obligations run natively once '
@@ -34,6 +34,10 @@ def obligations(tier):
         Ob('recognise_lis', 'ch', 'LIS files: 3 data records, direct/indirect X, TIF on/off, table on/off, split physical records, with/without reel+tape headers',
            det + ['bin_file_type._lis', 'LIS.core.File.file_read_with_best_physical_record_pad_settings', 'LIS.core.FileIndexer.FileIndex'], harness='C20_filetype', func='recognise_lis',
            timeout=280 if q else 900, parts=16),
+        Ob('recognise_lis_with_other_record_types', 'ch', 'LIS files holding one record of each of the 20 other LIS-79 logical record types (operator, comment, blank, picture, image, boot / program, '
+           'table dumps, data descriptor, logical EOF/BOT/EOT/EOM) with an opaque body: before the log, after it, or alone between file header and trailer; TIF on/off, split physical records',
+           det + ['bin_file_type._lis', 'LIS.core.FileIndexer.FileIndex (record dispatch)', 'LIS.core.LogiRec record classes'], harness='C20_filetype', func='recognise_lis_other_records',
+           timeout=170 if q else 600),
         Ob('recognise_las', 'ch', 'LAS 1.2/2.0, 2..4 curves, wrap, indentation 0..2, comments, blank lines, 8 cell vocab offsets',
            det + ['bin_file_type._las/_lasv12/_lasv20', 'RE_LAS_VERSION_LINE'], harness='C20_filetype', func='recognise_las', timeout=280 if q else 900, parts=16),
         Ob('recognise_bit_and_dat', 'ch', 'BIT: 1..3 channels, 1..3 frames, symbolic data byte, either direction; DAT: 4 declaration orders, 4 headers, 1..2 rows, blank/tab, both date spellings, plain or with 40 / 150 further channels (2 KB / 7 KB before the first data row) or 400 further rows',
